@@ -267,6 +267,42 @@ def validate_driver(ctx):
                                                           'closure': float(r), 'model': s})
 
 
+ORDERED_REQUESTS = [
+    ['r50_com', 'r100_com'], ['r100_com', 'r50_com'], ['sigmar_L2com', 'r100_L2com'], ['rvcirc_max_com', 'r100_com'],
+    ['rvcirc_max_L2com', 'r98_L2com', 'r100_L2com'], ['sigmavMaj_com', 'sigmav3d_com'], ['sigmav3d_com', 'sigmavMaj_com'],
+    ['sigmavMid_L2com', 'sigmav3d_L2com'], ['sigmavMin_com', 'sigmavMid_com', 'sigmav3d_com'],
+    ['N', 'x_com', 'r98_com', 'r100_com'], ['sigmavrad_L2com', 'sigmavtan_L2com', 'sigmav3d_L2com'], ['v_com', 'vcirc_max_com'],
+]
+
+
+def check_ordered_requests(ctx, cfg, cat, conv):
+    """the unit of a column must not depend on what else was requested or in which order: explicit request lists that
+    name a derived column before (and after) the column it is derived from, compared bytewise with the `all` load"""
+    have = set(conv.halos.colnames)
+    for req in ORDERED_REQUESTS:
+        if not all(n in have for n in req):
+            continue
+        case = dict(cfg, request=req)
+        ctx.case(case, nontrivial=len(conv.halos) > 0)
+        ctx.count('ordered-request')
+        try:
+            c = load(cat, cfg, True, fields=list(req))
+        except Exception as ex:   # noqa: BLE001
+            ctx.fail('loading an ordered request list raised %s' % type(ex).__name__, case, repr(ex)[:300], 'a catalog', key='c05:ordered-request')
+            continue
+        for name in req:
+            if name not in c.halos.colnames:
+                ctx.fail('requested column missing from an ordered request', dict(case, column=name), list(c.halos.colnames), name, key='c05:ordered-request')
+                continue
+            a, b = np.asarray(c.halos[name]), np.asarray(conv.halos[name])
+            if a.dtype != b.dtype or a.shape != b.shape or not np.array_equal(a, b, equal_nan=True):
+                with np.errstate(all='ignore'):
+                    ratio = (a.astype(np.float64).ravel()[:3] / b.astype(np.float64).ravel()[:3]).tolist() if a.shape == b.shape else None
+                ctx.fail('the values (units) of a column depend on the request list / its order', dict(case, column=name),
+                         {'first values': a.ravel()[:3].tolist(), 'ratio to the all-load': ratio}, {'first values': b.ravel()[:3].tolist()},
+                         key='c05:ordered-request')
+
+
 # --------------------------------------------------------------------------- (2) end to end
 
 def check_catalog(ctx, cfg, tag):
@@ -285,6 +321,7 @@ def check_catalog(ctx, cfg, tag):
         ctx.fail('loading fields="all" raised %s' % type(ex).__name__, cfg, repr(ex)[:300], 'a catalog', key='c05:load-raises')
         return
     ctx.count('loads', 2)
+    check_ordered_requests(ctx, cfg, cat, conv)
     nh = len(conv.halos)
     if conv.halos.colnames != unconv.halos.colnames:
         ctx.fail('convert_units changes the set of columns', cfg, unconv.halos.colnames, conv.halos.colnames, key='c05:colnames')
